@@ -22,7 +22,7 @@ KF_RebasePrefix(o, tmIn, cyc, live) ==
           /\ o.nodes[k].isref
           \* the document the reference points into (whether or not the loader delivers it)
           /\ LET u == Resolve(o.docs[o.nodes[k].doc].url, o.nodes[k].ref)
-             IN  \E d \in 1..Len(o.docs) : ~o.docs[d].out /\ SameDoc(o.docs[d].url, u) /\ o.collide[d]
+             IN  \E d \in 1..Len(o.docs) : ~o.docs[d].out /\ SameDocLocal(o.docs[d].url, u) /\ o.collide[d]
 
 \* KF-CHAIN-MULTIHOP (schema_loader.go deref + expander.go expandParameterOrResponse).
 \* A parameter / response / path item reached through a chain of two or more $ref hops of
